@@ -170,6 +170,7 @@ pub fn run(script: &SockScript) -> SockLog {
         }
     };
     drop(rt);
+    crate::duo::sim::spin_disarm();
     if crate::duo::sim::spin_tripped() && log.panicked.is_none() {
         log.panicked = Some(format!("livelock: {} polls at one virtual instant", crate::duo::sim::SPIN_LIMIT));
     }
